@@ -184,12 +184,12 @@ private theorem step_core (s : DState) (e : DEvent) (s' : DState) (o : Out) (h :
   · cases h
   · rename_i r hr
     obtain ⟨st, resp, reply, em⟩ := r
-    simp only [Except.ok.injEq] at h
+    simp only [Except.ok.injEq, Prod.mk.injEq] at h
+    obtain ⟨h1, h2⟩ := h
     have f := finishStep_state st resp reply em
-    rw [h] at f
-    simp only at f
+    subst h2
     refine ⟨resp, reply, em, ?_, f.2.1, f.2.2.1, f.2.2.2⟩
-    rw [hr, f.1]
+    rw [hr, ← h1, f.1]
 
 /-- **Cancellation only escalates**: no event ever lowers the cancel state's severity, and a
     cancelled run stays cancelled. -/
@@ -499,6 +499,30 @@ theorem cancel_requests (resp : Response) :
       | .info => some .getInfo
       | .none => none) := by
   cases resp <;> rfl
+
+/-- **A cancelled run does not sit out retry delays** (dispatcher half): a unit that reports a failed
+    attempt with a retry to come, while the run is being cancelled — possibly having consumed the
+    broadcast cancellation earlier, while its attempt was still running, where it is ignored — is sent the
+    cancellation again by that very step; the unit's retry-delay loop leaves on it (C07/C10, unit model)
+    and its `RetryStarted` is then refused (`no_start_after_cancel`). -/
+theorem cancelled_retry_delay_is_notified (s : DState) (i : Nat) (r : Res) (slow : Bool) (s' : DState) (o : Out)
+    (hc : s.cancel.isSome) (hreg : s.running.any (·.1 == i) = true) (hopen : s.rxOpen.contains i = true)
+    (h : step s (.attemptFailedWillRetry i r slow) = .ok (s', o)) :
+    (some i, Req.otherCancel) ∈ o.delivered := by
+  unfold step at h
+  split at h
+  · cases h
+  · simp only [Except.ok.injEq, Prod.mk.injEq] at h
+    obtain ⟨_, h2⟩ := h
+    subst h2
+    simp [Out.withDirect, directDelivery, hc, hreg]
+    exact Or.inl (by simpa using hopen)
+
+/-- … and an un-cancelled run sends nothing extra: outside cancellation the only requests a step
+    delivers are the broadcast of its response -/
+theorem no_direct_delivery_unless_cancelled (s : DState) (e : DEvent) (hc : s.cancel = none) :
+    directDelivery s e = [] := by
+  cases e <;> simp [directDelivery, hc]
 
 /-! ## Non-vacuity -/
 example : ∃ s o, run (DState.init 2 (.count 1)) [.started 0, .started 1, .finished 0 (.fail none false) false, .started 1] = .ok (s, o)
